@@ -33,7 +33,7 @@ class Recorder:
         self.sc = sc
         self.names = Names()
         self.fault = sc.get('fault', {})
-        self.net = simnet.Net(seed=sc.get('seed', 0), rand=None, delay=self._delay, record_bytes=False)
+        self.net = simnet.Net(seed=sc.get('seed', 0), rand=sc.get('rand'), delay=self._delay, record_bytes=False)
         self.events: List[dict] = []
         self.hosts: Dict[str, Any] = {}
         self.infos: Dict[str, Any] = {}
@@ -57,6 +57,10 @@ class Recorder:
         rname = rsock.host.name
         if f.get('drop') == n and f.get('drop_for', 'all') in ('all', rname):
             return []
+        for m in f.get('drop_match', []):
+            # the datagram of a given kind that a given host sends at a given instant (replay of model behaviours)
+            if m['from'] == ssock.host.name and m['t'] == net.now() and m['kind'] == self.kind_of(data, net, n):
+                return []
         h = hashlib.blake2b(f"{self.sc.get('seed', 0)}|{n}|{rname}".encode(), digest_size=8).digest()
         x = int.from_bytes(h, 'big')
         maxd = f.get('max_delay', 0)
@@ -66,6 +70,24 @@ class Recorder:
         if f.get('dup_permille', 0) and (x >> 20) % 1000 < f['dup_permille']:
             plan.append(d + ((x >> 32) % 30))
         return plan
+
+    @staticmethod
+    def kind_of(data: bytes, net: Any, n: int) -> str:
+        """q: query with a PTR question and no authority section, u: response sent by unicast, r: multicast response carrying a
+        pointer with positive TTL, g: multicast goodbye of a pointer."""
+        try:
+            m = wire.parse(data)
+        except wire.WireError:
+            return '?'
+        if not m.is_response:
+            return 'q' if any(q.type == wire.T_PTR for q in m.questions) and not m.authorities else 'p'
+        ptrs = [r for r in m.answers if r.type == wire.T_PTR]
+        dst = next((e['dst'] for e in reversed(net.log) if e['ev'] == 'send' and e.get('n') == n), simnet.MDNS_ADDR)
+        if dst not in (simnet.MDNS_ADDR, simnet.MDNS_ADDR6):
+            return 'u'
+        if ptrs and all(r.ttl == 0 for r in ptrs):
+            return 'g'
+        return 'r' if ptrs else 'o'
 
     # ------------------------------------------------------------ scenario actions
     def make_info(self, svc: dict) -> Any:
@@ -136,7 +158,8 @@ class Recorder:
         class BL(ServiceListener):
             def add_service(self, zc: Any, type_: str, name: str) -> None:
                 rec.ev('cb', bid=bid, kind='add', ty=rec.names.nb(type_), name=rec.names.nb(name))
-                rec.tasks.append(asyncio.ensure_future(lookup(type_, name)))
+                if not rec.sc.get('no_lookup'):
+                    rec.tasks.append(asyncio.ensure_future(lookup(type_, name)))
 
             def remove_service(self, zc: Any, type_: str, name: str) -> None:
                 rec.ev('cb', bid=bid, kind='rem', ty=rec.names.nb(type_), name=rec.names.nb(name))
